@@ -63,6 +63,7 @@ structure State where
   stopped : Bool := false         -- the sentinel has been queued
   sdPending : Option Job := none  -- start mode: stop_data waits in stop_async for all runs
   deadline : Option Nat := none   -- stop time + stop_timeout, until it has fired
+  stopAt : Option Nat := none     -- the instant of `stop()`
   output : Nat := 0               -- the block's output, counted up/down like the wrapper does
   nacc : Nat := 0                 -- number of accepted puts (incl. stop_data)
   log : List (Nat × Ev) := []     -- newest first
@@ -229,7 +230,7 @@ def doStop (c : Cfg) (s : State) : State :=
         let j : Job := ⟨s.nacc, d⟩
         emit { s with sdPending := some j, nacc := s.nacc + 1 } (.put j)
       else accept s d
-  { s with stopped := true, deadline := some (s.now + c.stopTimeout) }
+  { s with stopped := true, deadline := some (s.now + c.stopTimeout), stopAt := some s.now }
 
 inductive Op where
   /-- a put at instant `t`; `pre`: before the block's own timers of that instant;
